@@ -1178,7 +1178,8 @@ where
     T: Storable,
 {
     fn eq(&self, other: &Self) -> bool {
-        self.handle() == other.handle()
+        //handles are only unique within the store that holds the item (e.g. keys and data within their dataset)
+        self.handle() == other.handle() && std::ptr::eq(self.store, other.store)
     }
 }
 impl<'store, T> Eq for ResultItem<'store, T> where T: Storable {}
@@ -1187,6 +1188,7 @@ where
     T: Storable,
 {
     fn hash<H: Hasher>(&self, state: &mut H) {
+        (self.store as *const T::StoreType as usize).hash(state);
         self.handle().hash(state)
     }
 }
@@ -1195,7 +1197,7 @@ where
     T: Storable,
 {
     fn partial_cmp(&self, other: &Self) -> Option<Ordering> {
-        Some(self.handle().cmp(&other.handle()))
+        Some(self.cmp(other))
     }
 }
 impl<'store, T> Ord for ResultItem<'store, T>
@@ -1203,7 +1205,10 @@ where
     T: Storable,
 {
     fn cmp(&self, other: &Self) -> Ordering {
-        self.handle().cmp(&other.handle())
+        //first by the store that holds the item (stores of one kind live in one vector, so this is the order of their handles), then by handle
+        (self.store as *const T::StoreType as usize)
+            .cmp(&(other.store as *const T::StoreType as usize))
+            .then_with(|| self.handle().cmp(&other.handle()))
     }
 }
 
